@@ -268,14 +268,17 @@ def _presentation(ctx):
             jb = int(rng.integers(0, B.shape[1]))
             f3 = FT.invariant_field(rng, system, nrows)
             coef3, *_ = numpy.linalg.lstsq(B, f3.T, rcond=None)
-            for mag, atol, expect_present in ((1e-5, 1e-3, False), (1e-2, 1e-3, True), (1e-5, 1e-8, True), (1e-10, 1e-8, False)):
+            for mag, atol, expect_present in ((1e-5, 1e-3, False), (1e-2, 1e-3, True), (1e-5, 1e-8, True), (1e-10, 1e-8, False),
+                                              (1e-5, None, True), (1e-10, None, False)):
                 c = coef3.copy()
                 c[jb, :] = mag
                 f4 = (B @ c).T
                 S4 = list(range(21))
+                kw4 = {} if atol is None else {"drop_atol": atol}
+                atol = 1e-8 if atol is None else atol          # the documented default
                 tiny = [i for i in nz if numpy.all(numpy.abs(f4[:, i]) <= atol * 0.5)]
                 bigc = [i for i in nz if numpy.any(numpy.abs(f4[:, i]) > atol * 2)]
-                st, r = call_fill(ctx, FT.make_frame(f4, S4), system, case_id, "drop", drop_atol=atol)
+                st, r = call_fill(ctx, FT.make_frame(f4, S4), system, case_id, "drop", **kw4)
                 ctx.evaluation("drop-tolerance", (system, n, mag, atol))
                 if st != "ok":
                     if st != "harness":
@@ -285,10 +288,10 @@ def _presentation(ctx):
                 kept_tiny = [FT.NAMES[i] for i in tiny if FT.NAMES[i] in m]
                 lost_big = [FT.NAMES[i] for i in bigc if FT.NAMES[i] not in m]
                 if kept_tiny:
-                    ctx.violation("drop:sub-tolerance-kept", f"{system}: {kept_tiny} below drop_atol={atol} at all volumes but kept", case_id,
+                    ctx.violation(f"drop:sub-tolerance-kept:{'default' if not kw4 else 'explicit'}", f"{system}: {kept_tiny} below drop_atol={atol} at all volumes but kept", case_id,
                                   {"system": system, "atol": atol, "mag": mag})
                 if lost_big:
-                    ctx.violation("drop:super-tolerance-dropped", f"{system}: {lost_big} above drop_atol={atol} but dropped", case_id,
+                    ctx.violation(f"drop:super-tolerance-dropped:{'default' if not kw4 else 'explicit'}", f"{system}: {lost_big} above drop_atol={atol} but dropped", case_id,
                                   {"system": system, "atol": atol, "mag": mag})
 
 
